@@ -76,7 +76,7 @@ PROPS["C19"] = {
     "jobs": c19_jobs,
     "reach": ["after-op", "after-probe", "mutated-under-iterator", "mutated-twice-under-iterator", "built"],
     "selftest_vars": ["key", "k", "q", "lb", "k1", "k2"],
-    "selftest_kinds": {"key": (-50, 50), "k": (-50, 50), "q": (-50, 50), "lb": (-50, 50), "k1": (-50, 50), "k2": (-50, 50)},
+    "selftest_kinds": {"key": "sorted", "k": (-50, 50), "q": (-50, 50), "lb": (-50, 50), "k1": (-50, 50), "k2": (-50, 50)},
     "bounds": {"quick": "one Insert/Delete from every AVL shape of height <= 4 (335 shapes, <= 15 nodes); probes, clones and live iterators "
                         "(advanced 0..n steps, one mutation; two mutations incl. delete+re-insert of one key) from every shape of height <= 3; keys symbolic mathematical integers",
                "thorough": "every AVL shape of height <= 4 (335 shapes, <= 15 nodes)"},
@@ -234,4 +234,115 @@ PROPS["C08"] = {
                "thorough": "all eight operand structures"},
     "outside": "",
     "assumptions": ["libm functions are uninterpreted (same head and argument give the same value), special.* by name"],
+}
+
+# ----------------------------------------------------------------------------- C03
+def _pats(n, tier, rich):
+    """zero patterns as base-3 numbers over n positions: 0 symbolic non-zero, 1 zero/absent, 2 stored zero"""
+    def enc(ds):
+        v = 0
+        for d in reversed(ds):
+            v = v * 3 + d
+        return v
+    if n == 3:
+        base = [[0, 0, 0], [1, 0, 0], [0, 0, 1], [0, 1, 0], [1, 1, 1], [2, 0, 1], [1, 0, 1]]
+        if tier != "quick" and rich:
+            base += [[0, 2, 0], [2, 2, 2], [1, 1, 0], [0, 1, 1], [2, 1, 0]]
+    else:
+        base = [[0] * n, [1] + [0] * (n - 1), [0] * (n - 1) + [1], [1] * n, [i % 2 for i in range(n)], [2 if i == 1 else (i + 1) % 2 for i in range(n)]]
+    return [enc(b) for b in base]
+
+
+def c03_jobs(tier):
+    jobs = []
+    quick = tier == "quick"
+    fams = [(0, 2), (1, 3)] if quick else [(0, 2), (1, 3), (4, 6), (5, 7)]
+    n = 3
+    pats = _pats(n, tier, True)
+    for fi, (dk, sk) in enumerate(fams):
+        kinds = (dk, sk)
+        lean = quick and fi > 0  # Real64 in quick: the operations whose derivative handling differs
+        for op in range(14):
+            if lean and op not in (0, 2, 3, 6, 8, 10):
+                continue
+            for rk in kinds:
+                for ak in kinds:
+                    for bk in kinds:
+                        if op in (4, 5, 6, 7, 8, 9, 11, 13) and bk != dk:
+                            continue  # second operand unused
+                        if rk == dk and ak == dk and bk == dk:
+                            continue  # the all-dense run is the oracle
+                        pas = pats
+                        pbs = [pats[0], pats[3], pats[5]] if op in (0, 1, 2, 10, 12) else [pats[0]]
+                        prs = [pats[0], pats[4], pats[2]]
+                        if quick:
+                            pas = [pats[0], pats[3], pats[5], pats[6]]
+                            pbs = pbs[:2]
+                            prs = [pats[0], pats[2]]
+                        if lean:
+                            pas, pbs, prs = [pats[3], pats[5]], pbs[:1] if op != 2 else pbs[:2], [pats[0], pats[2]]
+                        for pa in pas:
+                            for pb in pbs:
+                                for pr in prs:
+                                    if op in (10, 11, 12, 13) and pr != prs[0]:
+                                        continue
+                                    jobs.append({"func": "verif_C03_vec", "args": [op, rk, ak, bk, n, pa, pb, pr],
+                                                 "tag": f"vec op={op} r={rk} a={ak} b={bk} pa={pa} pb={pb} pr={pr}"})
+        # matrices 2x3 (flattened patterns over 6 positions)
+        R, C = 2, 3
+        mp = _pats(R * C, tier, False)
+        vp2, vp3 = _pats(2, tier, False), _pats(3, tier, False)
+        for op in range(14):
+            if lean and op not in (2, 7, 8, 10, 11):
+                continue
+            for rk in kinds:
+                for ak in kinds:
+                    for bk in kinds:
+                        if op in (4, 5, 6, 11, 12, 13) and bk != dk:
+                            continue
+                        if op == 12 and ak != dk:
+                            continue
+                        if rk == dk and ak == dk and bk == dk:
+                            continue
+                        if op in (0, 1, 2, 3, 4, 5, 6, 11, 13):
+                            pas, pbs, prs = mp[:5], ([mp[0], mp[4]] if op in (0, 1, 2) else [mp[0]]), [mp[0], mp[4]]
+                        elif op == 7:
+                            pas, pbs, prs = mp[:5], [mp[0], mp[4]], [0, 1 + 27]
+                        elif op == 8:
+                            pas, pbs, prs = mp[:5], [vp3[0], vp3[4]], [vp2[0], vp2[1]]
+                        elif op == 9:
+                            pas, pbs, prs = [vp2[0], vp2[1], vp2[3]], [mp[0], mp[4]], [vp3[0], vp3[4]]
+                        elif op == 10:
+                            pas, pbs, prs = [vp2[0], vp2[1]], [vp3[0], vp3[4], vp3[3]], [mp[0], mp[4]]
+                        else:
+                            pas, pbs, prs = [mp[0]], [mp[0]], [mp[0], mp[4], mp[3]]
+                        if op == 13:
+                            prs = [mp[0]]
+                        if quick:
+                            pas = [pas[0], pas[-1]] if len(pas) > 1 else pas
+                            pbs = pbs[:1] if op not in (2, 7, 10) else pbs[:2]
+                            prs = [prs[0], prs[-1]] if len(prs) > 1 else prs
+                        if lean:
+                            pas, pbs = pas[-1:], pbs[-1:]
+                        for pa in pas:
+                            for pb in pbs:
+                                for pr in prs:
+                                    jobs.append({"func": "verif_C03_mat", "args": [op, rk, ak, bk, R, C, pa, pb, pr],
+                                                 "tag": f"mat op={op} r={rk} a={ak} b={bk} pa={pa} pb={pb} pr={pr}"})
+        for pa in pats:
+            jobs.append({"func": "verif_C03_ctor", "args": [sk, n, pa]})
+    return jobs
+
+
+PROPS["C03"] = {
+    "overlay": [RT, VIEWS, ("root/zz_verif_c03.go", "zz_verif_c03.go")],
+    "mode": "fp", "intmode": "int",
+    "jobs": c03_jobs,
+    "reach": ["C03-vec", "C03-mat", "C03-ctor"],
+    "selftest_vars": ["a", "b", "r", "s", "a.d", "b.d", "r.d"],
+    "bounds": {"quick": "vectors of length 3 and 2x3 matrices, Float64 and Real64 elements (values and one gradient slot), every dense/sparse combination of receiver and operands, "
+                        "zero patterns enumerated (leading, trailing, interleaved, all-zero, explicitly stored zeros), non-zero elements symbolic finite floats, symbolic prior receiver content",
+               "thorough": "also Float32/Real32 and more zero patterns"},
+    "outside": "dimensions above 3 / 2x3; element values that are infinite or NaN; integer element types; map-order dependence of Reduce",
+    "assumptions": ["map iteration order modelled as ascending key order", "non-zero elements are finite (0*Inf style differences between skipping and multiplying are outside the statement's 'mathematical result')"],
 }
